@@ -7,4 +7,5 @@ Inductive prog :=
 | PTry (body handler : prog)     (* try: body / except BaseException: handler; raise *)
 | PWrite                         (* write(f): the generator writes its output to f *)
 | PReplace                       (* os.replace(<temporary name>, file_name) *)
+| PMove                          (* shutil.move(<temporary name>, file_name): rename, or copy + unlink when rename fails *)
 | PRemoveTmp.                    (* with suppress(OSError): os.remove(<temporary name>) *)
